@@ -482,9 +482,129 @@ def malformed_case(rng, tag):
     return g.ops
 
 
+def round2_cases(rng, tier):
+    """round 2: the bulk form on objects that already have links (the values of the new aliases are
+    taken when they are written: a source that follows, by an older link, a key of the map changes
+    meanwhile); getAlias / getAliases / getFrom on chains under a namespace, and with short names that
+    begin with the namespace; setAllParametersValues with sources consistent / inconsistent with the
+    links, on objects whose links are out of sync; a chain whose lower end is constrained, updated at
+    its upper end with a value the lower end rejects."""
+    cases = []
+    perms = list(itertools.permutations(NAMES[:5], 4))
+    rng.shuffle(perms)
+    for (p0, p1, p2, p3) in perms[:(24 if tier == "quick" else 120)]:
+        g = Gen(rng, "bulk onto links %s%s%s%s" % (p0, p1, p2, p3))
+        g.new(0, "-")
+        for s in NAMES[:5]:
+            g.add(0, s, q=rng.randint(-8, 8), con="-")
+        kind = rng.randrange(3)
+        g.alias(0, p0, p1)                         # p1 follows p0 (older link)
+        if kind == 1:
+            g.setv(0, p0)                          # ... in sync
+        if kind == 2:
+            g.alias(0, p1, [x for x in NAMES[:5] if x not in (p0, p1, p2, p3)][0])
+        g.bulk(0, [(p0, p2), (p3, p1)])            # p0 follows p2; p3 follows p1
+        g.queries(0)
+        g.setv(0, p2)
+        cases.append(g.ops)
+    for pre in ["m.", "ab.", "x", "-"]:
+        for n in (3, 4, 5):
+            g = Gen(rng, "queries chain %s n=%d" % (pre, n))
+            g.populate(0, n + 1, pre, "-")
+            order = NAMES[:n]
+            rng.shuffle(order)
+            links = [(order[i], order[i + 1]) for i in range(n - 1)]
+            rng.shuffle(links)
+            for (a, b) in links:
+                g.alias(0, a, b)
+            g.emit("aliases 0")
+            o = g.o[0]
+            for s in NAMES[:n + 1]:
+                g.emit("aliasof 0 %s" % s)
+                g.emit("aliasof 0 %s" % nm(o.pre + s))
+                g.emit("from 0 %s" % nm(o.pre + s))
+                g.emit("from 0 %s" % s)
+            g.ns(0, rng.choice(["-", "m.", "q."]))
+            g.emit("aliases 0")
+            g.emit("aliasof 0 %s" % order[0])
+            cases.append(g.ops)
+    for variant in range(4):
+        # short names that begin with the namespace: the full name of one parameter is the short name of another
+        g = Gen(rng, "queries clash %d" % variant)
+        g.new(0, "m.")
+        for s in ["p", "q", "m.p", "m.q"]:
+            g.emit("add 0 %s %d -" % ("m." + s, rng.randint(-8, 8)))
+        if variant == 0:
+            g.emit("alias 0 m.q p"); g.emit("alias 0 m.p q")
+        elif variant == 1:
+            g.emit("alias 0 m.p p"); g.emit("alias 0 m.q m.p")
+        elif variant == 2:
+            g.emit("alias 0 p m.p"); g.emit("alias 0 q m.q"); g.emit("alias 0 m.q p")
+        else:
+            g.emit("alias 0 m.p q"); g.emit("alias 0 q p")
+        g.emit("aliases 0")
+        for s in ["p", "q", "m.p", "m.q", "m.m.p", "m.m.q"]:
+            g.emit("aliasof 0 %s" % s)
+            g.emit("from 0 %s" % s)
+        g.emit("setv 0 m.q 3"); g.emit("setv 0 m.p 5")
+        g.emit("bulk 0 m.p:m.q")
+        cases.append(g.ops)
+    for i in range(12 if tier == "quick" else 60):
+        g = Gen(rng, "setall %d" % i)
+        n = rng.choice([3, 4, 5])
+        names = NAMES[:n]
+        g.new(0, rng.choice(["-", "m."]))
+        o = g.o[0]
+        order = names[:]
+        rng.shuffle(order)
+        for s in order:                              # parameter order independent of the chain
+            g.add(0, s, q=rng.randint(-8, 8), con="-")
+        chain = names[:]
+        rng.shuffle(chain)
+        cut = rng.randint(1, n - 1)
+        for a, b in zip(chain[:cut], chain[1:cut + 1]):
+            g.alias(0, a, b)                         # links are out of sync (different values)
+        cls = {}
+        for s in names:
+            r = s
+            while r in o.parent:
+                r = o.parent[r]
+            cls.setdefault(r, rng.randint(-8, 8))
+        vals = {}
+        for s in names:
+            r = s
+            while r in o.parent:
+                r = o.parent[r]
+            vals[s] = cls[r]
+        src = names[:]
+        rng.shuffle(src)
+        g.emit("setallv 0 " + " ".join("%s=%d" % (nm(o.pre + s), vals[s]) for s in src))     # consistent
+        bad = dict(vals)
+        t = rng.choice(list(o.parent) or names)
+        bad[t] = bad[t] + rng.choice([1, -1, 3])
+        g.emit("setallv 0 " + " ".join("%s=%d" % (nm(o.pre + s), bad[s]) for s in src))      # inconsistent at one link
+        g.emit("setallv 0 " + " ".join("%s=%d" % (nm(o.pre + s), vals[s] + 1) for s in src)) # consistent again
+        cases.append(g.ops)
+    for i, (lo, hi) in enumerate([(0, 4), (-4, 0), (0, 8), (2, 6)]):
+        g = Gen(rng, "chain lower constraint %d" % i)
+        g.new(0, "-")
+        g.add(0, "a", q=lo, con="-"); g.add(0, "b", q=lo, con="-"); g.add(0, "c", q=lo, con="c:1:%d:%d:1" % (lo, hi))
+        if i % 2 == 0:
+            g.alias(0, "a", "b"); g.alias(0, "b", "c")      # a stays unconstrained
+        else:
+            g.alias(0, "b", "c"); g.alias(0, "a", "b")      # a takes the constraint
+        g.setv(0, "a", hi + 3)                              # rejected by c (and b)
+        g.setv(0, "a", hi)
+        g.bulkset(0, "setvs", ["a"], same=hi + 5)
+        g.bulkset(0, "matchvs", ["a"], same=lo)
+        cases.append(g.ops)
+    return cases
+
+
 def generate(seed, tier):
     rng = random.Random(seed)
     cases = []
+    cases += round2_cases(rng, tier)
     cases += chain_cases(rng, tier)
     cases += refuse_cases(rng, tier)
     cases += bulk_cases(rng, tier)
